@@ -18,12 +18,19 @@ struct QueueModel {
   int64_t kfifo_min_full = 0;         // PF_KFIFO: rejection legal only if size >= this
   PushFail push_fail = PF_NEVER;
   PopFail pop_fail = PE_EMPTY;
+  // Weak executions (C03): the property lists no loss / duplication / invention, delivery order and integrity - not the
+  // exactness of 'empty' / 'full' verdicts (two threads with stale views can legally disagree, store-buffering
+  // shape). Failed operations of worker threads are then always legal; the main thread's operations happen-after
+  // everything and stay exact.
+  bool weak = false;
 
   static void serialize(const State& s, std::string& out) {
     out.append(reinterpret_cast<const char*>(s.data()), s.size() * sizeof(int64_t));
   }
 
   bool apply(State& s, const hz::OpRec& op) const {
+    if (weak && !op.r && op.thread != 0)
+      return true;
     if (op.kind == Q_PUSH) {
       if (op.r) {
         if (capacity >= 0 && (int64_t)s.size() >= capacity)
